@@ -28,6 +28,7 @@ RULE = (
     "target and the decoy group own a retained peptide and >=1 shared peptide present; distinct = case parameters."
     " cli_digest: the command-line tool with --proteins and non-default --decoy_prefix / --missed_cleavages / --min_length / --clip_nterm_methionine on databases where the option matters (initiator methionines, peptides spanning a missed cleavage), judged against read_fasta() with the same options."
     " Every sixth direct table is sparse: one peptide per occurring protein group."
+    " target_only_reuse: target-only FASTA, one Proteins object serving three peptide tables in turn; each result equals that of a freshly read object, has one entry per pair and only existing groups."
 )
 ASSUMPTIONS = [
     "token -> group lookup uses the real Proteins.peptide_map (C16)",
@@ -45,10 +46,11 @@ def plan(seed, tier):
                "fmt": ["pin", "parquet"][i % 2], "cost": 6} for i in range(m)]
     k = 4 if tier == "quick" else 60
     cases += [{"class": "cli_digest", "index": i, "cost": 15} for i in range(k)]
+    cases += [{"class": "target_only_reuse", "index": i, "cost": 3} for i in range(8 if tier == "quick" else 200)]
     return cases
 
 
-MANDATORY_CLASSES = ["direct", "files", "cli_digest"]
+MANDATORY_CLASSES = ["direct", "files", "cli_digest", "target_only_reuse"]
 
 
 def pair_key(group, prefix):
@@ -340,5 +342,66 @@ def run_cli_digest(case):
     return res
 
 
+def run_target_only_reuse(case):
+    """Target-only FASTA (mokapot mirrors the decoy groups itself): one Proteins object serves several peptide tables
+    in turn. Each result must be what a freshly read Proteins object gives for the same table and seed, and may
+    hold at most one entry per target/decoy pair, all named after real protein groups."""
+    mokapot = core.import_mokapot()
+    pp = core.mk("mokapot.picked_protein")
+    rng = core.seed_seq(case["seed"], "C15", "reuse", case["index"])
+    res = Result(case)
+    with core.scratch("c15r") as d:
+        db = prot.protein_db(rng, n_prot=int(rng.integers(40, 120)), anagrams=int(rng.integers(0, 12)), prefix="decoy_")
+        fa = prot.write_fasta(db, d / "db.fasta", with_decoys=False)
+        kw = dict(missed_cleavages=0, min_length=6, decoy_prefix="decoy_")
+        shared = mokapot.read_fasta(str(fa), **kw)
+        ttoks = sorted({t for toks in db["targets"].values() for t in toks})
+        dtoks = sorted({t for toks in db["decoys"].values() for t in toks})
+        groups = set(shared.peptide_map.values())
+        nt = 0
+        for call in range(3):
+            k = int(rng.integers(len(ttoks) // 4, len(ttoks) // 2))
+            toks = [str(t) for t in rng.choice(ttoks, size=k, replace=False)] + [str(t) for t in rng.choice(dtoks, size=int(0.8 * k), replace=False)]
+            is_t = [True] * k + [False] * int(0.8 * k)
+            scores = rng.normal(size=len(toks)) + 1.5 * np.array(is_t)
+            table = pd.DataFrame({"Label": is_t, "peptide": toks, "score": scores.astype(float)}).iloc[rng.permutation(len(toks))].reset_index(drop=True)
+            seed = int(rng.integers(1 << 30))
+            fresh = mokapot.read_fasta(str(fa), **kw)
+            a = core.Call(pp.picked_protein, table.copy(), "Label", "peptide", "score", shared, seed)
+            b = core.Call(pp.picked_protein, table.copy(), "Label", "peptide", "score", fresh, seed)
+            res.count("picked_protein_calls", 2)
+            extra = dict(call=call, n_peptides=len(table), n_proteins=len(db["targets"]))
+            if a.ok != b.ok:
+                res.violate("outcome_depends_on_earlier_calls", "ok" if a.ok else a.sig, fresh="ok" if b.ok else b.sig, **extra)
+                break
+            if not a.ok:
+                if not a.explicit:
+                    res.violate("crash", a.sig, msg=a.info["msg"], **extra)
+                continue
+            ea = a.value.sort_values(["mokapot protein group", "score"]).reset_index(drop=True)
+            eb = b.value.sort_values(["mokapot protein group", "score"]).reset_index(drop=True)
+            names = [str(g) for g in ea["mokapot protein group"].tolist()]   # a missing group becomes 'nan'
+            bogus = [g for g in names if g not in groups and not (g.startswith("decoy_") and ", ".join(x[len("decoy_"):] for x in g.split(", ")) in groups)]
+            if bogus:
+                res.violate("entry_for_a_group_that_does_not_exist", "", groups=bogus[:4], **extra)
+                break
+            keys = [pair_key(g, "decoy_") for g in names]
+            if len(set(keys)) != len(keys):
+                dup = next(k_ for k_ in keys if keys.count(k_) > 1)
+                res.violate("pair_has_two_entries", "target_only", pair=sorted(dup), **extra)
+                break
+            if list(ea.columns) != list(eb.columns) or len(ea) != len(eb) or any(
+                    ea[c].astype(str).tolist() != eb[c].astype(str).tolist() for c in ea.columns):
+                res.violate("result_depends_on_earlier_calls", "", n_reused=len(ea), n_fresh=len(eb), **extra)
+                break
+            if call > 0:
+                nt += 1
+        res["nontrivial"] = nt > 0
+        res["sample"] = dict(n_proteins=len(db["targets"]), calls=3)
+    return res
+
+
 def run_case(case):
+    if case["class"] == "target_only_reuse":
+        return run_target_only_reuse(case)
     return {"direct": run_direct, "files": run_files, "cli_digest": run_cli_digest}[case["class"]](case)
